@@ -33,6 +33,8 @@ class BaseValue(int):
 
 class Resource(BaseValue):
     NAME: ClassVar[str] = ''
+    # the largest number the resource can hold (one octet fields such as the IP protocol set it to 0xFF)
+    MAX: ClassVar[int] = RESOURCE_VALUE_MAX
     codes: ClassVar[dict[str, int]] = {}
     names: ClassVar[dict[int, str]] = {}
 
@@ -61,11 +63,11 @@ class Resource(BaseValue):
             return cls.codes[name]
         if string.isdigit():
             value = int(string)
-            if 0 <= value <= RESOURCE_VALUE_MAX:
+            if 0 <= value <= cls.MAX:
                 return value
         if string_is_hex(string):
             value = int(string[2:], 16)
-            if 0 <= value <= RESOURCE_VALUE_MAX:
+            if 0 <= value <= cls.MAX:
                 return value
         raise ValueError(f'unknown {cls.NAME} {name}')
 
